@@ -1,12 +1,5 @@
-//! Kani harnesses compiled inside the crate as a child module (sees private items).
+//! Kani harnesses compiled inside `saphyr::loader` as a child module.
+//! None: the loader's `on_event` does not finish under Kani (recursive derived Clone/Eq/Hash/Drop of
+//! the tree type plus the mapping type), neither with the real hashlink map nor with an
+//! association-list model (see kani/attic/ and DESIGN.md section 1). C07 is not applicable.
 #![allow(dead_code, unused_imports, clippy::all)]
-use super::*;
-
-#[path = "/verif/kani/common/sym.rs"]
-pub mod sym;
-
-#[cfg(test)]
-mod playback {
-    use super::*;
-    include!("/verif/.work/playback/loader.rs");
-}
